@@ -117,6 +117,11 @@ MUTANTS += [
 """)]),
     dict(id="c16-ambiguity-not-reported", property="C16", edits=[(S, "    if len(stack) > 1:\n        raise AnnotationError(", "    if len(stack) > 99:\n        raise AnnotationError(")]),
     dict(id="c16-ambiguous-uses-outer-label", property="C16", edits=[(S, "    return stack[0]\n", "    return stack[-1]\n"), (S, "    if len(stack) > 1:\n        raise AnnotationError(", "    if len(stack) > 99:\n        raise AnnotationError(")]),
+    # F13 re-introduced: a context entered during a PyTree check inherits flatten mode / the '?' position
+    dict(id="c02-f13-context-inherits-flatten-mode", property="C02", checks=["C02"], edits=[(S, "    _treeflatten_storage.value = False\n    _treepath_storage.value = None\n    return memos", "    return memos")]),
+    dict(id="c02-f13-pop-does-not-restore", property="C02", checks=["C02", "C16"], edits=[(S, """    _treeflatten_storage.value, _treepath_storage.value = (
+        _shape_storage.suspended.pop()
+    )""", "    _shape_storage.suspended.pop()")]),
     # F12 re-introduced: trying a node as a leaf keeps the structure names it bound
     dict(id="c08-f12-leaf-trial-binds-structure-name", property="C08", checks=["C08", "C16"], edits=[(P, "                if pytree_memo != pytree_memo_bak:\n", "                if False:\n")]),
 ]
